@@ -268,6 +268,24 @@ Proof.
     rewrite Forall_forall in *. intros g Hg. apply Hvg, Hin', Hg.
 Qed.
 
+(** what an infallible separator recipe can return: exactly the strings over its alphabet *)
+Theorem infallible_support r v : infallible r ->
+  (reach (sep_val (SepRecipe r)) v <-> exists cand, In cand (strings_over (alphabet r) (len_nat r)) /\ v = concat cand).
+Proof.
+  intros Hi. split.
+  - intros Hv. unfold WordProdProofs.sep_val in Hv. apply reach_fmap in Hv. destruct Hv as (se & Hse & <-).
+    cbn [WordGen.sep_call] in Hse. apply reach_bind in Hse. destruct Hse as (o & Ho & Hse).
+    destruct (infallible_reach r o Hi Ho) as (cand & -> & Hl & Hin). cbn [reach] in Hse. subst se.
+    exists cand. split; [apply strings_over_In; auto|reflexivity].
+  - intros (cand & Hc & ->). apply strings_over_In in Hc. destruct Hc as [Hl Hin].
+    unfold WordProdProofs.sep_val. apply reach_fmap. exists (concat cand, Some (char_entropy r)). split; [|reflexivity].
+    cbn [WordGen.sep_call]. apply reach_bind. exists (Done cand). split; [|reflexivity].
+    rewrite (infallible_form r Hi). destruct Hi as (HL & HA & _ & Hlive & _ & HT & _).
+    destruct (Z.to_nat (bTrials b)) as [|T'] eqn:ET; [lia|]. cbn [retry]. apply reach_bind. exists cand. split.
+    + apply reach_attempt; [exact HA|]. auto.
+    + rewrite (filter_true_of_no_live _ cand Hlive). reflexivity.
+Qed.
+
 Lemma Qprod_const (l : list Q) c : Forall (fun q => q == c)%Q l -> (Qprod l == Qpow c (length l))%Q.
 Proof. intros H. induction H as [|q l Hq _ IH]; cbn [Qprod Qpow length]; [reflexivity|]. rewrite Hq, IH. reflexivity. Qed.
 
